@@ -153,10 +153,10 @@ class CircuitWorld(World):
 
     # ------------------------------------------------------------ generation
     TABLES = {
-        "gates": dict(gate=12, query=4, sampler=1, gen_next=2, copy=1, set_params=1, new=1, reject=1, apply_gates=1),
-        "queries": dict(gate=5, query=10, sampler=1, gen_next=2, copy=1, set_params=1, new=0.5, reject=0.5, apply_gates=0.5),
-        "samplers": dict(gate=5, query=3, sampler=4, gen_next=6, copy=1, set_params=0.5, new=0.5, reject=0.5, apply_gates=0.5),
-        "mixed": dict(gate=8, query=6, sampler=2, gen_next=3, copy=1.5, set_params=1, new=1, reject=1, apply_gates=1),
+        "gates": dict(gate=12, query=4, sampler=1, gen_next=2, copy=1, set_params=2, new=1, reject=1, apply_gates=1),
+        "queries": dict(gate=5, query=10, sampler=1, gen_next=2, copy=1, set_params=2.5, new=0.5, reject=0.5, apply_gates=0.5),
+        "samplers": dict(gate=5, query=3, sampler=4, gen_next=6, copy=1, set_params=1.5, new=0.5, reject=0.5, apply_gates=0.5),
+        "mixed": dict(gate=8, query=6, sampler=2, gen_next=3, copy=1.5, set_params=2.5, new=1, reject=1, apply_gates=1),
     }
     for _t in TABLES.values():
         _t["sample_now"] = _t["sampler"]
@@ -184,7 +184,7 @@ class CircuitWorld(World):
             npar = self._nparams(label)
             if npar:
                 g["params"] = [round(r.uniform(-math.pi, math.pi), 4) for _ in range(npar)]
-                if cls in EXACT and r.random() < 0.25:
+                if cls in EXACT and r.random() < 0.45:
                     g["parametrize"] = True
         qs = r.sample(range(N), nq)
         g["qubits"] = qs
@@ -228,6 +228,13 @@ class CircuitWorld(World):
                     "seed": r.randrange(2**31)}
         if k == "copy":
             return {"k": "copy", "circ": ci}
+        if k == "set_params" and cls in EXACT and not any(g.get("parametrize") for g in c["applied"]):
+            lab = pick(r, ["RZ", "RX", "RY", "U3", "RZZ", "FSIM", "CRX", "PHASE"])
+            nq = self.G.GATE_SIZE[lab]
+            if nq <= N:
+                g = {"label": lab, "nq": nq, "params": [round(r.uniform(-3, 3), 4) for _ in range(self._nparams(lab))],
+                     "parametrize": True, "qubits": r.sample(range(N), nq)}
+                return {"k": "gate", "circ": ci, "gate": g, "via": "apply_gate"}
         if k == "set_params":
             return {"k": "set_params", "circ": ci, "pick": r.randrange(1 << 16),
                     "params": [round(r.uniform(-3, 3), 4) for _ in range(15)],
